@@ -413,10 +413,30 @@ func (c *Ctx) urlLog(fn *ssa.Function) int {
 					switch Callee(x) {
 					case "(*net/url.URL).String", "(*net/url.URL).RequestURI", "(*net/url.URL).Query", "(*net/url.URL).Redacted":
 						leak = Callee(x)
+					case "(*net/http.Request).Referer":
+						// the page that posted the form is the mailed link itself
+						leak = "the Referer header (the URL of the page the request came from, query included)"
+					case "(net/http.Header).Get", "(net/http.Header).Values":
+						if k, isC := constArgStr(x, 1); isC && strings.EqualFold(k, "Referer") {
+							leak = "the Referer header (the URL of the page the request came from, query included)"
+						}
 					}
 					for _, aa := range x.Call.Args {
 						find(aa, d+1)
 					}
+				case *ssa.BinOp:
+					find(x.X, d+1)
+					find(x.Y, d+1)
+				case *ssa.Phi:
+					if d < 6 {
+						for _, e := range x.Edges {
+							find(e, d+1)
+						}
+					}
+				case *ssa.Extract:
+					find(x.Tuple, d+1)
+				case *ssa.Convert:
+					find(x.X, d+1)
 				case *ssa.MakeInterface:
 					find(x.X, d+1)
 				case *ssa.Slice:
